@@ -47,7 +47,7 @@ def vf_jobs(tier):
             unwind=(12 if q else 14),object_bits=12,witnesses=['chain opened','serial number with the top bit set'],models=ENV+['abstract chained file (M-frame(c))'],tags=['C09','C03','C13'],checks=[],
             functions=['_open_seekable2','_bisect_forward_serialno','ov_pcm_total'],bounds='%d links of 200..40000 bytes, <=%d page fetches, non-multiplexed chain'%(kl,10 if kl==2 else 16),weight=4,flags=['--depth','100000'] if False else []))
     J.append(Job('raw-seek','vf/raw_seek.c',defs=['-DNPK=%d'%(3 if q else 4)],cuts={'vorbisfile.c':['_seek_helper','_get_next_page']},unwind=(3 if q else 4)*2+6,object_bits=12,
-        witnesses=['not seekable','out of range','seek failed','end of file','last page, not first','first page is also the last','ordinary page'],models=ENV+['abstract single-page source, two ghost stream queues'],tags=['C07','C10','C03','C12'],
+        witnesses=['not seekable','out of range','seek failed','end of file','last page, not first','first page is also the last','ordinary page'],models=ENV+['abstract single-page source, two ghost stream queues'],tags=['C07','C10','C03','C12','C09','C13'],
         functions=['ov_raw_seek','_decode_clear','ov_pcm_total'],bounds='2 links, the page found holds <=%d packets, no further page'%(3 if q else 4),weight=3))
     for nm,d,wit in (('F-headers',[],['failed','failed after some pages','headers fetched']),('F-open1',['-DVIA_OPEN'],['open1 failed','open1 ok'])):
         J.append(Job(nm,'vf/f_headers.c',defs=d+['-DENV_BUDGET=%d'%(6 if q else 8)],cuts={'vorbisfile.c':['_get_next_page']},unwind=(6 if q else 8)+3,unwindset=[('env_fill_page',None,28),('ogg_page_granulepos',None,10),('harness',None,64)],checks=['leak'],object_bits=12,
